@@ -43,7 +43,7 @@ def confirm(sid):
         res['suite_passes_with_patch'] = (rc == 0 and 'test result: FAILED' not in out and '136 passed' in out)
         shutil.copy(os.path.join(d, 'demo.rs'), os.path.join(wt, 'tests', 'seed_demo.rs'))
         rc, out = sh('%s cargo test --offline --test seed_demo' % env, cwd=wt)
-        res['demo_fails_with_patch'] = (rc != 0 and 'test result: FAILED' in out)
+        res['demo_fails_with_patch'] = (rc != 0 and ('test result: FAILED' in out or 'could not compile' in out))
         res['demo_with_patch_tail'] = out[-1200:]
         sh('git apply -R %s/patch.diff' % d, cwd=wt)
         rc, out = sh('%s cargo test --offline --test seed_demo' % env, cwd=wt)
@@ -103,6 +103,17 @@ def main():
         print(sid, 'confirmed' if ok else 'NOT CONFIRMED', {k: v for k, v in res.items() if isinstance(v, bool)})
         if not ok:
             return 1
+        return 0
+    if sys.argv[1] == 'reconfirm':
+        for sid in sys.argv[2:]:
+            d = os.path.join(SEEDED, sid)
+            meta = json.load(open(os.path.join(d, 'meta.json')))
+            res = confirm(sid)
+            ok = res.get('applies') and res.get('suite_passes_with_patch') and res.get('demo_fails_with_patch') and res.get('demo_passes_without_patch')
+            meta['confirmed'] = bool(ok)
+            meta['confirmation'] = res
+            json.dump(meta, open(os.path.join(d, 'meta.json'), 'w'), indent=1)
+            print(sid, 'confirmed' if ok else 'NOT CONFIRMED')
         return 0
     if sys.argv[1] == 'run':
         ids = sys.argv[2:] or sorted(os.listdir(SEEDED))
